@@ -229,7 +229,12 @@ class Ncp:
             desired = args["desiredProtocolVersion"]
             if desired == self.V:
                 self.negotiated = True
-            self._send_rsp(req, self.encode_rsp(req, (self.V, self.stack_type, self.stack_version)))
+            payload = self.encode_rsp(req, (self.V, self.stack_type, self.stack_version))
+            if getattr(self, "version_deliver", None) is not None:  # a check wants to decide when (and whether) the version reply goes out
+                req.rsp = payload
+                self.version_deliver(req, payload)
+                return
+            self._send_rsp(req, payload)
             return
         if not self.negotiated:
             self.bad_requests.append((now, bytes(p), f"{name} before the version was negotiated"))
